@@ -4,7 +4,12 @@ C13, C14, C15.  Nothing here is counted as proved."""
 import random
 from architecture_simulator.settings.settings import Settings
 
-ABI = Settings().get()["abi_names"]
+# the RISC-V ABI register names, written down here (not read from the repository's settings: the oracle must not
+# follow a changed table)
+ABI = {"zero": 0, "ra": 1, "sp": 2, "gp": 3, "tp": 4, "t0": 5, "t1": 6, "t2": 7, "s0": 8, "fp": 8, "s1": 9,
+       "a0": 10, "a1": 11, "a2": 12, "a3": 13, "a4": 14, "a5": 15, "a6": 16, "a7": 17,
+       "s2": 18, "s3": 19, "s4": 20, "s5": 21, "s6": 22, "s7": 23, "s8": 24, "s9": 25, "s10": 26, "s11": 27,
+       "t3": 28, "t4": 29, "t5": 30, "t6": 31}
 ABI_BY_NUM = {}
 for k, v in ABI.items():
     ABI_BY_NUM.setdefault(v, []).append(k)
